@@ -213,6 +213,7 @@ Datum(e) ==
       [] OTHER -> <<"undef">>
 
 (* ---------------- the evaluator ---------------- *)
+RECURSIVE EvT(_, _, _), EvTSeq(_, _, _, _, _)
 RECURSIVE Ev(_, _, _), EvSeq(_, _, _, _), EvArgs(_, _, _, _, _, _), Call(_, _, _), Loop(_, _, _),
           EvBind(_, _, _, _, _), EvCond(_, _, _, _), EvShort(_, _, _, _, _), MapOver(_, _, _, _, _),
           Force(_, _)
@@ -401,21 +402,65 @@ Ev(e, f, s0) ==
     [] e[1] = "assert" ->
          LET r == Ev(e[2], f, s) IN
          IF ~IsVal(r) THEN r ELSE IF Truthy(r.v) THEN Val(Nil, r.s) ELSE ErrR("assert", r.s)
+    [] e[1] = "sq" -> EvT(e[2], f, s)      \* ^template
     [] e[1] = "eval" ->     \* (eval (quote e)): e is compiled when reached and run in the current scope
          LET r == Ev(e[2], f, s) IN
          IF r.k \in {"brk", "cnt"} THEN ErrR("break-outside-loop", r.s) ELSE r
     [] OTHER -> Res("undef", e[1], s)
+
+(* syntax-quote templates: <<"atom",datum>> <<"unq",e>> <<"splice",e>> <<"list",<<T..>>>> <<"arr",<<T..>>>>; *)
+(* unquoted expressions are evaluated left to right in the current frame; a splice contributes the       *)
+(* elements of its list                                                                                    *)
+EvTSeq(ts, i, acc, f, s) ==
+    IF i > Len(ts) THEN Val(acc, s)
+    ELSE IF ts[i][1] = "splice"
+         THEN LET r == Ev(ts[i][2], f, s) IN
+              IF r.k \in {"brk", "cnt"} THEN Res("undef", "jump-out-of-template", r.s)
+              ELSE IF ~IsVal(r) THEN r
+              ELSE IF r.v = Nil THEN EvTSeq(ts, i + 1, acc, f, r.s)
+              ELSE IF r.v[1] = "list" THEN EvTSeq(ts, i + 1, acc \o r.v[2], f, r.s)
+              ELSE ErrR("splice-of-non-list", r.s)
+         ELSE LET r == EvT(ts[i], f, s) IN
+              IF ~IsVal(r) THEN r ELSE EvTSeq(ts, i + 1, Append(acc, r.v), f, r.s)
+
+EvT(t, f, s) ==
+    CASE t[1] = "atom" -> Val(t[2], s)
+      [] t[1] = "unq" -> LET r == Ev(t[2], f, s) IN
+                         IF r.k \in {"brk", "cnt"} THEN Res("undef", "jump-out-of-template", r.s) ELSE r
+      [] t[1] = "list" -> LET r == EvTSeq(t[2], 1, <<>>, f, s) IN IF ~IsVal(r) THEN r ELSE Val(MkList(r.v), r.s)
+      [] t[1] = "arr" -> LET r == EvTSeq(t[2], 1, <<>>, f, s) IN IF ~IsVal(r) THEN r ELSE Val(<<"arr", r.v>>, r.s)
+      [] OTHER -> Res("undef", "template", s)
 
 (* ---------------- running a program ---------------- *)
 InitState(fuel, failAt) ==
     [fr |-> << [vars |-> <<>>, parent |-> 0] >>, clo |-> <<>>, thk |-> <<>>, fx |-> <<>>,
      fuel |-> fuel, calls |-> 0, failAt |-> failAt]
 
-(* a program is a sequence of top-level forms evaluated in the global frame; *)
-(* break/continue outside a loop is a compile-time error                      *)
+(* break/continue outside a loop (or naming a label no enclosing loop has) is refused when the text *)
+(* is compiled, before anything of it runs: FreeJump(e, labels) with labels the set of labels of     *)
+(* the enclosing loops ("" stands for "some loop")                                                   *)
+RECURSIVE FreeJump(_, _), FreeJumpSeq(_, _)
+FreeJumpSeq(es, L) == \E i \in 1..Len(es) : FreeJump(es[i], L)
+FreeJump(e, L) ==
+    CASE e[1] \in {"break", "continue"} -> IF e[2] = "" THEN L = {} ELSE e[2] \notin L
+      [] e[1] \in {"int", "str", "bool", "nil", "flt", "chr", "sym", "quote"} -> FALSE
+      [] e[1] \in {"def", "set"} -> FreeJump(e[3], L)
+      [] e[1] \in {"arr", "scope", "begin", "and", "or"} -> FreeJumpSeq(e[2], L)
+      [] e[1] \in {"let", "letseq"} -> (\E i \in 1..Len(e[2]) : FreeJump(e[2][i][2], L)) \/ FreeJumpSeq(e[3], L)
+      [] e[1] = "cond" -> (\E i \in 1..Len(e[2]) : FreeJump(e[2][i][1], L) \/ FreeJump(e[2][i][2], L)) \/ FreeJump(e[3], L)
+      [] e[1] = "for" -> LET L2 == L \cup {"", e[2]} IN
+                         FreeJump(e[3], L2) \/ FreeJump(e[4], L2) \/ FreeJump(e[5], L2) \/ FreeJumpSeq(e[6], L2)
+      [] e[1] = "fn" -> FreeJumpSeq(e[4], L)
+      [] e[1] = "defn" -> FreeJumpSeq(e[5], L)
+      [] e[1] = "call" -> FALSE      \* arguments are compiled when the call runs (EvArgs leaves jumps there undefined)
+      [] e[1] \in {"assert", "eval"} -> FALSE
+      [] OTHER -> FALSE
+
+(* a program is a sequence of top-level forms evaluated in the global frame *)
 RunProgram(forms, fuel, failAt) ==
-    LET r == EvSeq(forms, 1, 1, InitState(fuel, failAt)) IN
-    IF r.k \in {"brk", "cnt"} THEN ErrR("break-outside-loop", r.s) ELSE r
+    IF FreeJumpSeq(forms, {}) THEN ErrR("compile", InitState(fuel, failAt))
+    ELSE LET r == EvSeq(forms, 1, 1, InitState(fuel, failAt)) IN
+         IF r.k \in {"brk", "cnt"} THEN ErrR("break-outside-loop", r.s) ELSE r
 
 (* the observable outcome: value (closures opaque), or error, with the effects *)
 RECURSIVE Obs(_)
